@@ -243,8 +243,9 @@ fn gen_pattern(rng: &mut Rng, n: usize) -> Option<Vec<bool>> {
     if rng.chance(0.4) {
         return None;
     }
-    let lens: Vec<usize> = (1..=8).filter(|l| n % l == 0).collect();
-    let len = *rng.pick(&lens);
+    let lens: Vec<usize> = (1..=16).filter(|l| n % l == 0).collect();
+    // prefer the longest pattern half of the time (7, 9, 11, 14 blocks when the length allows)
+    let len = if rng.coin() { *lens.last().unwrap() } else { *rng.pick(&lens) };
     let mut p: Vec<bool> = (0..len).map(|_| rng.chance(0.7)).collect();
     let i = rng.below(len);
     p[i] = true; // at least one kept block
@@ -441,7 +442,15 @@ fn encoder_case(l: &mut Local, rng: &mut Rng, via_file: bool) {
     let enc = Encoder::from_h(&h).expect("encoder");
     let punct = pattern.as_ref().map(|p| Puncturer::new(p));
     for rep in 0..4 {
-        let msg: Vec<u8> = (0..k).map(|_| rng.coin() as u8).collect();
+        let mut msg: Vec<u8> = (0..k).map(|_| rng.coin() as u8).collect();
+        // "every buffer contents": bytes other than 0 and 1 (read as bit 0, like the Rust side's conversion does);
+        // the output must still consist of 0/1 bytes only
+        if rep == 3 && k > 0 {
+            for _ in 0..rng.range(1, 3) {
+                let i = rng.below(k);
+                msg[i] = *rng.pick(&[2u8, 255, 0x80, 3, 0x31]);
+            }
+        }
         let word = enc.encode(&to_gf2(&msg));
         let want: Vec<u8> = match &punct {
             None => from_gf2(&word),
@@ -616,7 +625,34 @@ fn capi_leg(run: &mut Run) {
     let names2 = names.clone();
     let thorough = run.tier == crate::ctx::Tier::Thorough;
     run.sub_seq("decoder-differential", n, move |l, idx, rng| {
-        let m = if idx % 2 == 0 { genm::textbook() } else { genm::decoder_matrix(rng, 6, 12) };
+        // every tenth case: a longer code whose length is a multiple of 7, 9, 11 or 14 (patterns of that many blocks:
+        // their rates are not exact in floating point, so nothing may be derived from a rounded rate)
+        let m = if idx % 10 == 7 && !cfg!(miri) {
+            let blocks = *rng.pick(&[7usize, 9, 11, 14]);
+            let n = blocks * rng.range(2, 14);
+            let r = rng.range(3, n / 3);
+            let mut e: Vec<(usize, usize)> = Vec::new();
+            for c in 0..n {
+                for j in rng.choose(r, 2.min(r)) {
+                    e.push((j, c));
+                }
+            }
+            let mut mm = Mat::new(r, n, e, "longer-code-odd-block-count");
+            // every check must involve at least two bits
+            for j in 0..r {
+                while mm.e.iter().filter(|x| x.0 == j).count() < 2 {
+                    let c = rng.below(n);
+                    if !mm.e.contains(&(j, c)) {
+                        mm.e.push((j, c));
+                    }
+                }
+            }
+            Mat::new(r, n, mm.e, "longer-code-odd-block-count")
+        } else if idx % 2 == 0 {
+            genm::textbook()
+        } else {
+            genm::decoder_matrix(rng, 6, 12)
+        };
         // all 36 names on the first matrices, a random subset afterwards
         let subset: Vec<String> = if cfg!(miri) {
             vec![names2[(idx as usize * 7) % 36].clone(), names2[(idx as usize * 7 + 25) % 36].clone()]
@@ -722,7 +758,7 @@ fn gen_c_cases(run: &mut Run, dir: &str) {
 }
 
 pub fn run(run: &mut Run, extra: &[String]) {
-    run.rule = "exported ldpc_toolbox_* symbols called through extern \"C\" declarations in a child process (an abort inside the C interface is observed, not fatal): decoder = all 36 names on the textbook matrix and random matrices (string and file constructors, padded/unpadded alists, puncturing patterns of length 1..8 dividing n with >= 1 kept block, none), histories of 2..6 calls on ONE handle (f64 and f32 entry points, f32 values representable, 6 % of the calls with two or three infinite LLRs, limits {0,1,2,5,20}, output_len in {n, k, 1, random}) each compared with a FRESH Rust decoder on the depunctured LLRs; encoder = staircase and dense-tail matrices, 4 messages per handle vs Rust Encoder + Puncturer; constructors: null for malformed alists (judged against the Rust parser), malformed patterns (\"1,2\", \"1,,0\", \"a\", trailing comma, spaces, non-UTF-8 bytes), unknown names (case, padding whitespace, HL+flooding-only), unreadable files, a file replaced by other contents (also of the same length with the same modification time) between two constructor calls on one path, singular tail (encoder only), non-null for valid controls and all 36 names; exactly sized heap buffers; C driver under clang ASan/UBSan and valgrind memcheck replays generated cases from C through the shipped header; non-trivial = repeated call on a handle / encode / constructor case".into();
+    run.rule = "exported ldpc_toolbox_* symbols called through extern \"C\" declarations in a child process (an abort inside the C interface is observed, not fatal): decoder = all 36 names on the textbook matrix and random matrices (string and file constructors, padded/unpadded alists, puncturing patterns of length 1..16 dividing n with >= 1 kept block (every tenth case a code of 14..196 bits whose length is a multiple of 7, 9, 11 or 14), none), histories of 2..6 calls on ONE handle (f64 and f32 entry points, f32 values representable, 6 % of the calls with two or three infinite LLRs, limits {0,1,2,5,20}, output_len in {n, k, 1, random}) each compared with a FRESH Rust decoder on the depunctured LLRs; encoder = staircase and dense-tail matrices, 4 messages per handle (the last with bytes other than 0/1) vs Rust Encoder + Puncturer; constructors: null for malformed alists (judged against the Rust parser), malformed patterns (\"1,2\", \"1,,0\", \"a\", trailing comma, spaces, non-UTF-8 bytes), unknown names (case, padding whitespace, HL+flooding-only), unreadable files, a file replaced by other contents (also of the same length with the same modification time) between two constructor calls on one path, singular tail (encoder only), non-null for valid controls and all 36 names; exactly sized heap buffers; C driver under clang ASan/UBSan and valgrind memcheck replays generated cases from C through the shipped header; non-trivial = repeated call on a handle / encode / constructor case".into();
     run.assumptions = vec![
         "inputs outside the stated contract (output_len > n, wrong llrs_len, pattern not dividing n, all-zero pattern) are not generated".into(),
     ];
